@@ -423,15 +423,21 @@ func (br *boundsRun) liftable(fn *ssa.Function) bool {
 	if n == nil || len(n.In) == 0 {
 		return false
 	}
+	real := 0
 	for _, e := range n.In {
+		// a compiler-generated wrapper that nothing calls is not a caller
+		if e.Caller.Func.Synthetic != "" && len(e.Caller.In) == 0 {
+			continue
+		}
 		if e.Site == nil || e.Site.Common().StaticCallee() != fn {
 			return false
 		}
 		if !isLibPkg(fnPkgPath(e.Caller.Func)) {
 			return false
 		}
+		real++
 	}
-	return true
+	return real > 0
 }
 
 func (br *boundsRun) paramOnly(fn *ssa.Function, g blin) bool {
@@ -447,6 +453,9 @@ func (br *boundsRun) provenAtCallers(fn *ssa.Function, g blin) bool {
 	n := br.w.CG.Nodes[fn]
 	for _, e := range n.In {
 		caller := e.Caller.Func
+		if caller.Synthetic != "" && len(e.Caller.In) == 0 {
+			continue
+		}
 		pc := br.prover(caller)
 		args := e.Site.Common().Args
 		lifted := blconst(g.k)
